@@ -1026,6 +1026,42 @@ def rule_scope_cases(col, inidir):
                         expected="CHANGE entries under %s" % sibling)
 
 
+# --------------------------------------------------------------------------- custom-tagged scalars (raw YAML)
+TAGGED_CASES = [
+    # (lhs, rhs, data-equal?)
+    ("a: !foo bar\n", "a: !foo bar\n", True),
+    ("!foo bar\n", "!foo bar\n", True),
+    ("[!t 1, x, !t 1]\n", "[!t 1, x, !t 1]\n", True),
+    ("a: {b: !v 1.5, c: [!v 1.5]}\n", "a: {b: !v 1.5, c: [!v 1.5]}\n", True),
+    ("a: !foo bar\n", "a: !foo qux\n", False),
+    ("a: !foo bar\n", "a: !baz bar\n", False),
+    ("a: !foo bar\n", "a: bar\n", False),
+    ("[!t 1, x]\n", "[!t 2, x]\n", False),
+]
+
+
+def tagged_scalar_cases(col, inidir):
+    """Two separately loaded documents with custom-tagged scalars: no difference exactly when tag and value agree."""
+    for (ly, ry, equal) in TAGGED_CASES:
+        for arrays, aoh in (("position", "position"), ("value", "value")):
+            inp = {"lhs": ly, "rhs": ry, "arrays": arrays, "aoh": aoh, "via": "args", "tagged": True}
+            res = run_differ(config_for(inp, inidir), gen.load(ly), gen.load(ry))
+            col.case(("tagged", ly, ry, arrays, res[0]))
+            if res[0] != "ok":
+                col.witness("C06/tagged-scalar/raised-%s" % type(res[1]).__name__, "comparing documents with tagged scalars fails", inp,
+                            observed=repr(res[1]), expected="a report")
+                continue
+            differs = any(e[0] != "SAME" for e in res[1])
+            if equal and differs:
+                col.witness("C06/tagged-scalar/identical-documents-show-a-difference",
+                            "two loads of the same text (custom-tagged scalars) are reported as different", inp,
+                            observed=[list(e[:2]) for e in res[1] if e[0] != "SAME"], expected="no non-SAME entry")
+            if not equal and not differs:
+                col.witness("C06/tagged-scalar/different-tag-or-value-shows-no-difference",
+                            "tagged scalars that differ in tag or value are reported as the same", inp,
+                            observed=[list(e[:2]) for e in res[1]], expected="a non-SAME entry")
+
+
 def _run_main(yaml_diff, argv):
     old = sys.argv
     out, err = io.StringIO(), io.StringIO()
@@ -1145,6 +1181,7 @@ def run(tier="quick", seed=0, jobs=None):
         b["E_main_runs"] = len(pairs)
         exit_status_cases(col, inidir, pairs)
         rule_scope_cases(col, inidir)
+        tagged_scalar_cases(col, inidir)
         lap("E")
         b["phase_wall_s"] = phase
     finally:
@@ -1176,6 +1213,8 @@ def replay(inp):
             exit_status_cases(col, inidir, [(inp["lhs"], inp["rhs"], (inp["arrays"], inp["aoh"]))])
         elif inp.get("via") == "ini-rules":
             rule_scope_cases(col, inidir)
+        elif inp.get("tagged"):
+            tagged_scalar_cases(col, inidir)
         else:
             L = gen.load(inp["lhs"])
             R = L if inp.get("same_object") else gen.load(inp["rhs"])
